@@ -31,14 +31,15 @@ theorem drop_as_index (v i : GoVal) : indexValue v (.drop i) = indexValue v i :=
 theorem drop_test (v : GoVal) : (GoVal.drop v).test = v.test := by simp [test, unwrap]
 theorem drop_intOf (v : GoVal) : (GoVal.drop v).intOf = v.intOf := by simp [intOf, unwrap]
 
-/-- a variable bound to a drop evaluates to the drop's value -/
+/-- a variable bound to a drop evaluates to the drop's value (a drop that yields a drop is resolved in turn:
+    `values.ToLiquid` after `fixes/nested-drops-resolved`) -/
 theorem eval_var_drop (P : Prims) (env : Env) (x : Bytes) (v : GoVal) (h : env.get x = .drop v) :
-    eval P env (.var x) = .ok v := by
-  rw [eval]; simp [h, GoVal.toLiquid]
+    eval P env (.var x) = .ok v.toLiquid := by
+  rw [eval]; simp [h]
 
-/-- printing a drop prints its value (for a value that is not itself a drop or a pointer to one) -/
+/-- printing a drop prints its value, whatever that value is (a drop of a drop included) -/
 theorem drop_prints_as_value (v : GoVal) : stdChunks (.drop v) = writeChunksL v := by
-  simp [stdChunks, GoVal.toLiquid]
+  rw [stdChunks_eq_writeChunksL, writeChunksL_drop]
 
 /-- a loop over a drop visits the items of its value: the collection expression is evaluated
     through `Interface()`, which resolves drops -/
@@ -314,13 +315,6 @@ code distinguishes representations that C18 declares equivalent — each was als
 engine of /repo with the template and the two bindings named in its comment, with the two
 different results stated) -/
 
-/-- *`uniq` sees the element type of nested slices.* Template `{{ a | uniq | size }}` with
-`a = []any{[]int{1}, []any{1}}` gives 2, with `a = []any{[]any{1}, []any{1}}` gives 1
-(`uniqFilter` compares with `==` / `reflect.DeepEqual`: same dynamic type and contents). -/
-example : lenOfRes (stdPrims.applyFilter (ArrF.bn "uniq") (.slice .any [.slice (.int .int) [.int .int 1], .slice .any [.int .int 1]]) []) = 2 ∧
-    lenOfRes (stdPrims.applyFilter (ArrF.bn "uniq") (.slice .any [.slice .any [.int .int 1], .slice .any [.int .int 1]]) []) = 1 := by
-  decide +kernel
-
 /-- *`type` prints the Go type.* Template `{{ a | type }}` with `a = []int{1}` prints `[]int`, with
 `a = []any{1}` it prints `[]interface {}` — the purpose of the filter. -/
 example : (match stdPrims.applyFilter (JsonF.bn "type") (.slice (.int .int) [.int .int 1]) [],
@@ -341,30 +335,58 @@ example : (match stdPrims.applyFilter (JsonF.bn "json") (.slice (.int .u8) [.int
     | _, _, _, _ => false) = true := by
   decide +kernel
 
-/-- *`fmt.Sprint` shows a drop inside a map.* Template `{{ m }}` with `m = map[string]any{"a": Drop{1}}`
-prints `map[a:{1}]`, with `m = map[string]any{"a": 1}` it prints `map[a:1]`. -/
-example : stdChunks (.map .str .any [(.str [97], .drop (.int .int 1))]) = .ok [[109, 97, 112, 91, 97, 58, 123, 49, 125, 93]] ∧
-    stdChunks (.map .str .any [(.str [97], .int .int 1)]) = .ok [[109, 97, 112, 91, 97, 58, 49, 93]] := by
-  decide +kernel
-
-/-- *A string filter applied to an array shows the drops in it.* Template `{{ a | append: "" }}` with
-`a = []any{Drop{1}}` gives `[{1}]`, with `a = []any{1}` it gives `[1]` (`Convert(·, string)` is
-`fmt.Sprint` after one `ToLiquid` of the array itself). -/
-example : strOfRes (stdPrims.applyFilter (ArrF.bn "append") (.slice .any [.drop (.int .int 1)]) [.str []]) = [91, 123, 49, 125, 93] ∧
-    strOfRes (stdPrims.applyFilter (ArrF.bn "append") (.slice .any [.int .int 1]) [.str []]) = [91, 49, 93] := by
-  decide +kernel
-
-/-- *A drop that yields a drop, inside an array, is not its final value for `values.Equal`*
-(`ToLiquid` is applied once per element). Template `{% case a %}{% when b %}eq{% endcase %}` with
-`a = []any{DropOf(DropOf(1))}`, `b = []any{1}` does not print `eq`; with `a = []any{1}` it does. -/
-example : stdPrims.equalFn (.slice .any [.drop (.drop (.int .int 1))]) (.slice .any [.int .int 1]) ≠ .ok true ∧
-    stdPrims.equalFn (.slice .any [.int .int 1]) (.slice .any [.int .int 1]) = .ok true := by
-  decide +kernel
-
 /-- *A fixed array is comparable in Go, a slice is not.* `m contains x` for an ordered map `m` with
 the key `[1]int{1}`: with `x = [1]int{1}` the model makes no claim (`==` on arrays: `unmodelled`; in
 Go the comparison succeeds), with `x = []int{1}` it is false. Hence "agree" (`RunAgree true`). -/
 example : stdPrims.contains (.mapSlice [(.array (.int .int) [.int .int 1], .nil)]) (.array (.int .int) [.int .int 1])
       = .unmodelled "comparability of an array value" ∧
     stdPrims.contains (.mapSlice [(.array (.int .int) [.int .int 1], .nil)]) (.slice (.int .int) [.int .int 1]) = .ok false := by
+  decide +kernel
+
+/-! ## The four deviations repaired by `fixes/nested-drops-resolved` (DESIGN 7.1b)
+
+Each was a proved counterexample here (the two renders differ); each is now the opposite statement, evaluated on
+the same template and the same two bindings. -/
+
+/-- *`uniq` no longer sees the element type of nested slices.* Template `{{ a | uniq | size }}` with
+`a = []any{[]int{1}, []any{1}}` gives 1, as with `a = []any{[]any{1}, []any{1}}` (it gave 2): `eqItems` compares
+arrays by what they hold. -/
+theorem uniq_typed_nested_slice_repaired :
+    lenOfRes (stdPrims.applyFilter (ArrF.bn "uniq") (.slice .any [.slice (.int .int) [.int .int 1], .slice .any [.int .int 1]]) []) = 1 ∧
+    lenOfRes (stdPrims.applyFilter (ArrF.bn "uniq") (.slice .any [.slice .any [.int .int 1], .slice .any [.int .int 1]]) []) = 1 := by
+  decide +kernel
+
+/-- *A drop inside a map that is printed whole is its value.* Template `{{ m }}` with
+`m = map[string]any{"a": Drop{1}}` prints `map[a:1]`, as with `m = map[string]any{"a": 1}` (it printed
+`map[a:{1}]`): `writeObject` prints `fmt.Sprint(values.ResolveDrops(m))`. -/
+theorem drop_in_printed_map_repaired :
+    stdChunks (.map .str .any [(.str [97], .drop (.int .int 1))]) = .ok [[109, 97, 112, 91, 97, 58, 49, 93]] ∧
+    stdChunks (.map .str .any [(.str [97], .int .int 1)]) = .ok [[109, 97, 112, 91, 97, 58, 49, 93]] := by
+  decide +kernel
+
+/-- *A string filter applied to an array sees the values of the drops in it.* Template `{{ a | append: "" }}`
+with `a = []any{Drop{1}}` gives `[1]`, as with `a = []any{1}` (it gave `[{1}]`): `Convert(·, string)` is
+`fmt.Sprint(values.ResolveDrops(a))`. -/
+theorem drop_in_array_to_string_repaired :
+    strOfRes (stdPrims.applyFilter (ArrF.bn "append") (.slice .any [.drop (.int .int 1)]) [.str []]) = [91, 49, 93] ∧
+    strOfRes (stdPrims.applyFilter (ArrF.bn "append") (.slice .any [.int .int 1]) [.str []]) = [91, 49, 93] := by
+  decide +kernel
+
+/-- *A drop that yields a drop, inside an array, is its final value for `values.Equal`.* Template
+`{% case a %}{% when b %}eq{% endcase %}` with `a = []any{DropOf(DropOf(1))}`, `b = []any{1}` prints `eq`, as with
+`a = []any{1}` (it did not): `ToLiquid` follows the chain of drops. -/
+theorem drop_of_drop_in_array_equal_repaired :
+    stdPrims.equalFn (.slice .any [.drop (.drop (.int .int 1))]) (.slice .any [.int .int 1]) = .ok true ∧
+    stdPrims.equalFn (.slice .any [.int .int 1]) (.slice .any [.int .int 1]) = .ok true := by
+  decide +kernel
+
+/-- deeper: a drop of a drop of a drop in a map in an array in a map prints as the value it finally yields,
+    under `{{ m }}` and under `{{ m | append: "" }}` -/
+example :
+    stdChunks (.map .str .any [(.str [97], .slice .any [.map .str .any [(.str [98], .drop (.drop (.drop (.int .int 1))))]])])
+      = .ok [[109, 97, 112, 91, 97, 58, 91, 109, 97, 112, 91, 98, 58, 49, 93, 93, 93]] ∧
+    stdChunks (.map .str .any [(.str [97], .slice .any [.map .str .any [(.str [98], .int .int 1)]])])
+      = .ok [[109, 97, 112, 91, 97, 58, 91, 109, 97, 112, 91, 98, 58, 49, 93, 93, 93]] ∧
+    strOfRes (stdPrims.applyFilter (ArrF.bn "append") (.map .str .any [(.str [97], .slice .any [.drop (.map .str .any [(.str [98], .drop (.int .int 1))])])]) [.str []])
+      = [109, 97, 112, 91, 97, 58, 91, 109, 97, 112, 91, 98, 58, 49, 93, 93, 93] := by
   decide +kernel
